@@ -36,6 +36,15 @@ class NumberTree:
             # be followed without end.
             if visited is None:
                 visited = set()
+            # The /Kids array can be an indirect object itself.  A node written
+            # directly into such an array may name that same array as its own
+            # /Kids: that cycle passes through no node reference, only through
+            # the reference to the array, so the array is tracked as well.
+            kids_objid = getattr(self._obj.get("Kids"), "objid", None)
+            if kids_objid is not None:
+                if kids_objid in visited:
+                    return items
+                visited.add(kids_objid)
             for child_ref in self.kids:
                 objid = getattr(child_ref, "objid", None)
                 if objid is not None:
